@@ -148,10 +148,16 @@ template <typename C>
 struct Buf {
     std::basic_string<C> s;                      // content (without terminator)
     std::unique_ptr<mc::GuardedBlock<C>> blk;    // exactly s.size() (+1 when terminated) elements
+    // the same string followed, after its terminator, by two more characters that differ
+    // between the two variants: a valid argument wherever C takes a NUL-terminated string, and
+    // it makes a function that looks past the terminator return something different
+    std::unique_ptr<mc::GuardedBlock<C>> tail1, tail2;
     std::string shown;
     bool any_high{false};
     C const* p() const { return blk->data(); }
     C* mp() const { return blk->data(); }        // the block itself is mutable; used for the non-const overloads (never written)
+    C* lhs(int mode) const { return mode == 0 ? blk->data() : tail1->data(); }
+    C* rhs(int mode) const { return mode == 0 ? blk->data() : tail2->data(); }
     std::size_t len() const { return s.size(); }
 };
 
@@ -179,7 +185,19 @@ std::vector<Buf<C>> make_pool(std::vector<C> const& alpha, int maxLen, bool term
         b.s   = s;
         b.blk = std::make_unique<mc::GuardedBlock<C>>(s.size() + (terminated ? 1 : 0));
         std::copy(s.begin(), s.end(), b.blk->data());
-        if (terminated) { b.blk->data()[s.size()] = C(0); }
+        if (terminated) {
+            b.blk->data()[s.size()] = C(0);
+            b.tail1 = std::make_unique<mc::GuardedBlock<C>>(s.size() + 3);
+            b.tail2 = std::make_unique<mc::GuardedBlock<C>>(s.size() + 3);
+            for (auto* t : {b.tail1.get(), b.tail2.get()}) {
+                std::copy(s.begin(), s.end(), t->data());
+                t->data()[s.size()] = C(0);
+            }
+            b.tail1->data()[s.size() + 1] = alpha.front();
+            b.tail1->data()[s.size() + 2] = C('p');
+            b.tail2->data()[s.size() + 1] = alpha.back();
+            b.tail2->data()[s.size() + 2] = C('q');
+        }
         b.shown = mc::show_chars(s.begin(), s.end());
         for (C c : s) { b.any_high = b.any_high || Api<C>::high(c); }
         out.push_back(std::move(b));
@@ -201,6 +219,7 @@ struct Ctx {
     std::size_t n{0};
     long ch{0};
     long so{0}, dof{0};
+    int mode{0}; // 1: the strings are followed by differing characters after their terminators
     std::uint64_t evals{0}, nontriv{0};
     std::uint64_t san;
     bool enabled[F_count];
@@ -311,6 +330,7 @@ struct Ctx {
         if (uses_b(fid) && b != nullptr) { k += cat(" rhs=", b->shown); }
         if (uses_n(fid)) { k += cat(" count=", show_n(n)); }
         if (uses_ch(fid)) { k += cat(" ch=", ch); }
+        if (mode == 1) { k += uses_b(fid) ? " [after the terminators: lhs +first,'p'; rhs +last,'q' of the alphabet]" : " [after the terminator: first letter of the alphabet,'p']"; }
         return k;
     }
 
@@ -385,9 +405,11 @@ void sweep_strings(mc::Reporter& r, std::vector<C> const& alpha, int maxLen, int
         if (int(ia % std::size_t(parts)) != part) { continue; }
         auto const& SA = pool[ia];
         cx.a           = &SA;
-        cx.b           = nullptr;
-        C const* const pa = SA.p();
         std::size_t const la = SA.len();
+        for (int mode = 0; mode < 2; ++mode) {
+        cx.mode           = mode;
+        cx.b              = nullptr;
+        C const* const pa = SA.lhs(mode);
 
         // ---- one string ----------------------------------------------------------------
         mc::Trap t = mc::guarded([&] {
@@ -401,7 +423,7 @@ void sweep_strings(mc::Reporter& r, std::vector<C> const& alpha, int maxLen, int
                 }
                 if (cx.on(F_chr_nc)) {
                     auto w = A::r_chr(pa, int(ch));
-                    C* g   = A::e_chr(SA.mp(), int(ch));
+                    C* g   = A::e_chr(SA.lhs(mode), int(ch));
                     cx.cmp(off(g, pa), off(w, pa), w != nullptr);
                 }
                 if (cx.on(F_rchr)) {
@@ -411,7 +433,7 @@ void sweep_strings(mc::Reporter& r, std::vector<C> const& alpha, int maxLen, int
                 }
                 if (cx.on(F_rchr_nc)) {
                     auto w = A::r_rchr(pa, int(ch));
-                    C* g   = A::e_rchr(SA.mp(), int(ch));
+                    C* g   = A::e_rchr(SA.lhs(mode), int(ch));
                     cx.cmp(off(g, pa), off(w, pa), w != nullptr);
                 }
             }
@@ -437,7 +459,7 @@ void sweep_strings(mc::Reporter& r, std::vector<C> const& alpha, int maxLen, int
         // ---- ordered pairs ------------------------------------------------------------------
         for (auto const& SB : pool) {
             cx.b              = &SB;
-            C const* const pb = SB.p();
+            C const* const pb = SB.rhs(mode);
             std::size_t const lb = SB.len();
             mc::Trap t2 = mc::guarded([&] {
                 if (cx.on(F_cmp)) {
@@ -470,7 +492,7 @@ void sweep_strings(mc::Reporter& r, std::vector<C> const& alpha, int maxLen, int
                 }
                 if (cx.on(F_pbrk_nc)) {
                     auto w = A::r_pbrk(pa, pb);
-                    C* g   = A::e_pbrk(SA.mp(), SB.mp());
+                    C* g   = A::e_pbrk(SA.lhs(mode), SB.rhs(mode));
                     cx.cmp(off(g, pa), off(w, pa), w != nullptr);
                 }
                 if (cx.on(F_str)) {
@@ -480,7 +502,7 @@ void sweep_strings(mc::Reporter& r, std::vector<C> const& alpha, int maxLen, int
                 }
                 if (cx.on(F_str_nc)) {
                     auto w = A::r_str(pa, pb);
-                    C* g   = A::e_str(SA.mp(), SB.mp());
+                    C* g   = A::e_str(SA.lhs(mode), SB.rhs(mode));
                     cx.cmp(off(g, pa), off(w, pa), w != nullptr && lb > 0);
                 }
                 if (cx.on(F_cat)) {
@@ -509,7 +531,9 @@ void sweep_strings(mc::Reporter& r, std::vector<C> const& alpha, int maxLen, int
             });
             cx.trapped(t2);
         }
-        if (!SA.blk->intact()) { r.violation("C02", "job:strings", "source-canary", SA.shown, "a source string block was written to"); }
+        } // mode
+        cx.mode = 0;
+        if (!SA.blk->intact() || !SA.tail1->intact() || !SA.tail2->intact()) { r.violation("C02", "job:strings", "source-canary", SA.shown, "a source string block was written to"); }
         if (r.wants_sample() && la == std::size_t(maxLen)) { r.sample(cat(A::tname, " lhs=", SA.shown, " x all ", pool.size(), " rhs, every count")); }
         if (r.deadline_passed()) {
             r.not_exhaustive("deadline");
@@ -537,10 +561,12 @@ void sweep_search(mc::Reporter& r, std::vector<C> const& alpha, int maxHay, int 
         if (int(ia % std::size_t(parts)) != part) { continue; }
         auto const& SA = hays[ia];
         cx.a           = &SA;
-        C const* const pa = SA.p();
+        for (int mode = 0; mode < 2; ++mode) {
+        cx.mode           = mode;
+        C const* const pa = SA.lhs(mode);
         for (auto const& SB : needles) {
             cx.b              = &SB;
-            C const* const pb = SB.p();
+            C const* const pb = SB.rhs(mode);
             mc::Trap t = mc::guarded([&] {
                 if (cx.on(F_str)) {
                     auto w = A::r_str(pa, pb);
@@ -567,6 +593,8 @@ void sweep_search(mc::Reporter& r, std::vector<C> const& alpha, int maxHay, int 
             });
             cx.trapped(t);
         }
+        } // mode
+        cx.mode = 0;
         if (r.deadline_passed()) {
             r.not_exhaustive("deadline");
             break;
